@@ -95,6 +95,9 @@ fn main() {
                     for (k, v) in &c.counters {
                         cov.add(k, *v);
                     }
+                    if !c.violations.is_empty() {
+                        cov.bump("violating_cases");
+                    }
                     if let Some(v) = c.violations.first() {
                         if finds.len() < 4 {
                             finds.push(Finding { v: v.clone(), sig: format!("C17/c17/{}", v.oracle), replay: c.desc.clone() });
